@@ -103,15 +103,19 @@ var baseReq, _ = http.NewRequest(http.MethodGet, "http://verif.invalid/events", 
 
 // RunWith executes the case with the given reader (C20 counts what is pulled from it). ownBuf: give the
 // Connection a small buffer of its own instead of nil.
-func RunWith(c Case, r io.Reader, ownBuf bool) ([]sse.Event, error) {
+func RunWith(c Case, r io.Reader, ownBuf bool, capOnly ...bool) ([]sse.Event, error) {
 	var events []sse.Event
 	if c.Conn {
 		cl := sse.Client{HTTPClient: &http.Client{Transport: rt{r}}, ResponseValidator: sse.NoopValidator, Backoff: sse.Backoff{MaxRetries: -1}}
 		conn := cl.NewConnection(baseReq)
 		if c.MaxSize > 0 {
-			if ownBuf {
+			switch {
+			case len(capOnly) > 0 && capOnly[0]:
+				// bufio.Scanner: the limit is the larger of max and cap(buf) - here the capacity alone says it
+				conn.Buffer(make([]byte, 0, c.MaxSize), 0)
+			case ownBuf:
 				conn.Buffer(make([]byte, 4), c.MaxSize)
-			} else {
+			default:
 				conn.Buffer(nil, c.MaxSize)
 			}
 		}
